@@ -1516,7 +1516,10 @@ def correspondence(ck, cases: list) -> list[int]:
             + " ].\nEval vm_compute in (failing agree cases).\n"
         texts.append((f"cases_{k // chunk}", text))
     bad = []
-    for (tag, _), (rc, out), k in zip(texts, ck.coq_eval_many(texts), range(0, len(cases), chunk)):
+    import concurrent.futures as cf
+    with cf.ThreadPoolExecutor(max_workers=4) as ex:      # at most 4 cores (other checks run concurrently)
+        outs = list(ex.map(lambda tt: ck.coq_eval(tt[1], tt[0], 900), texts))
+    for (tag, _), (rc, out), k in zip(texts, outs, range(0, len(cases), chunk)):
         if rc != 0:
             raise RuntimeError(f"case file {tag} did not compile:\n{out[-3000:]}")
         bad += [k + i for i in common.parse_nat_list(out)]
@@ -1695,7 +1698,7 @@ def run(ck) -> None:
     except Exception as e:  # noqa: BLE001
         force_restore()
         ck.broken("probe:reentry", repr(e))
-    n = 300 if not ck.thorough else 6000
+    n = 300 if not ck.thorough else 4500
     scns = _load_corpus()
     n_corpus = len(scns)
     for i in range(n):
